@@ -15,6 +15,7 @@ def _norm(s):
 
 
 EXTRA_WITNESS = {}
+TIER = ['quick']
 
 
 def _witness_files(VERIF, unit):
@@ -60,6 +61,7 @@ def run_native_test(src, BUILD, crate, wfile, unit, names, timeout=3600):
     env['CARGO_TARGET_DIR'] = os.path.join(BUILD, 'native-target')
     env['CARGO_NET_OFFLINE'] = 'true'
     env['RUST_BACKTRACE'] = '0'
+    env['VERIF_TIER'] = TIER[0]
     cmd = ['cargo', 'test', '--offline', '-p', crate, '--test', tname, '--', '--test-threads', '4'] + list(names)
     try:
         p = subprocess.run(cmd, cwd=nsrc, env=env, capture_output=True, text=True, timeout=timeout)
@@ -168,10 +170,12 @@ def selfcheck(pid, cfg, BUILD, VERIF):
 def run_bounded_units(res, pc, src, BUILD, VERIF, tier):
     """Standing bounded stand-ins for functions that no verifier here can read (labelled bounded, never counted as
     proved): executable contract checks over an exhaustively enumerated small universe, run natively on the real crate."""
+    TIER[0] = tier
     units = list(pc.get('bounded', [])) + (pc.get('bounded_thorough', []) if tier == 'thorough' else [])
     for bu in units:
         wf = os.path.join(VERIF, 'contracts', 'witness', bu['file'])
-        info = dict(unit=bu['name'], back_end='native exhaustive small-scope check (BOUNDED stand-in, not a proof)', bound=bu['bound'],
+        bound_txt = bu['bound'] + ((' | thorough tier: ' + bu['bound_thorough']) if tier == 'thorough' and bu.get('bound_thorough') else '')
+        info = dict(unit=bu['name'], back_end='native exhaustive small-scope check (BOUNDED stand-in, not a proof)', bound=bound_txt,
                     functions=bu.get('functions', []), tests=bu['tests'], status='?')
         res.units.append(info)
         import time
@@ -189,7 +193,7 @@ def run_bounded_units(res, pc, src, BUILD, VERIF, tier):
             res.undecided.append('bounded unit %s: tests did not run: %s' % (bu['name'], ', '.join(missing)))
             continue
         bad = [(t, results[t][1]) for t in bu['tests'] if results[t][0] != 'ok']
-        res.extra.setdefault('bounded_standins', []).append(dict(unit=bu['name'], bound=bu['bound'], functions=bu.get('functions', []), tests=len(bu['tests']),
+        res.extra.setdefault('bounded_standins', []).append(dict(unit=bu['name'], bound=bound_txt, functions=bu.get('functions', []), tests=len(bu['tests']),
                                                                  passed=len(bu['tests']) - len(bad), note='bounded - NOT counted in obligations/discharged'))
         for f in bu.get('functions', []):
             res.functions.append(dict(file=f['file'], fn=f['fn'], back_end='native bounded stand-in', strength='B(' + bu['bound'] + ')', rewrites=[], clauses=[]))
